@@ -212,6 +212,12 @@ func oracleC06(r *rig, res *scnResult) {
 // nothing was requested from that peer afterwards (so the answer added no longest-chain header), the peer sent no
 // announcement afterwards, its cap cut the answer short of its tip, and the service's tip is on that peer's chain.
 func stoppedAfterKnownOnlyReply(r *rig, res *scnResult, best *nodeFinal, t *tree) bool {
+	// default engine only: there an answer that adds a longest-chain header is ALWAYS followed by a request to the same
+	// peer, so "no request afterwards" means the answer added none. (The experimental engine may decide "synced" after
+	// an answer that did add headers: finding C06-X1 must not be absorbed here.)
+	if r.s.Engine != "legacy" {
+		return false
+	}
 	h := best.Hist
 	k := -1
 	for i, e := range h {
